@@ -36,7 +36,7 @@ FLOORS = {'quick': {'arm:inert': 150, 'arm:capture': 150, 'multi_line_comment': 
           'thorough': {'arm:inert': 3000, 'arm:capture': 3000, 'multi_line_comment': 800, 'block_comment': 1200, 'trailing': 2000}}
 
 CONTENTS = ['c', 'a comment', "it's", 'say "hi"', 'Table x {', '}', "'; DROP TABLE t; --", ']', '[pk]', "'''", 'é日本', '{0}', '{x}',
-            'note: \'x\'', '// nested', '-- sql', 'Ref: a.b > c.d', '#fff', 'back\\slash', 'TODO: fix', '%s', '``', 'x' * 70, '/* open']
+            'note: \'x\'', '// nested', '-- sql', 'Ref: a.b > c.d', '#fff', 'back\\slash', 'TODO: fix', '%s', '``', 'x' * 70, '/* open', 'ends with backslash \\', 'C:\\dir\\', '\\\\']
 TOP_OPEN = {'project_open': 'project', 'enum_open': 'enum', 'table_open': 'table', 'ref_short': 'ref', 'ref_open': 'ref', 'group_open': 'group'}
 
 
